@@ -563,6 +563,7 @@ package machine
 //@   ensures  none:  (mut == nil) <==> (len(names) == 0)
 //@   ensures  kind:  mut != nil ==> fresh(mut) && mut.IsAuto && mut.Type == MutationAdd && !mut.IsCheck && mut.QueueTick == 0
 //@   ensures  order: forall i, j int :: 0 <= i && i < j && j < len(names) ==> index(rr.Transition.Machine.stateNames, names[i]) < index(rr.Transition.Machine.stateNames, names[j])
+//@   ensures  called: mut != nil && !rr.Transition.Machine.disposing ==> (forall i int :: 0 <= i && i < len(mut.Called) ==> 0 <= mut.Called[i] && mut.Called[i] < len(rr.Transition.Machine.stateNames))
 //@   loop 1 invariant set:   forall x string :: mem(toAdd, x) <==> ((exists j int :: 0 <= j && j < idx1 && m.stateNames[j] == x) && AutoWanted(m, x))
 //@   loop 1 invariant nodup: nodup(toAdd)
 //@   loop 1 invariant order: (forall i, j int :: 0 <= i && i < j && j < len(toAdd) ==> index(m.stateNames, toAdd[i]) < index(m.stateNames, toAdd[j])) && (forall i int :: 0 <= i && i < len(toAdd) ==> index(m.stateNames, toAdd[i]) < idx1)
@@ -614,6 +615,7 @@ package machine
 //@   assigns Transition.latestHandlerIsEnter, Transition.latestHandlerIsFinal, Machine.panicCaught, Machine.queue, Machine.queueLen, Machine.queueTicksPending, Machine.logEntries, ghost.faults
 //@   ensures res: r == Executed || r == Canceled
 //@   ensures faults: (isFinal && r == Canceled) ? ghost.faults == old(ghost.faults) + 1 : ghost.faults == old(ghost.faults)
+//@   ensures queue: old(QueueInv(m)) ==> QueueInv(m)
 
 //@ func (t *Transition) emitHandler(from, to string, isFinal, isEnter bool, event string, args A) (r Result)
 //@   props C05
@@ -621,6 +623,7 @@ package machine
 //@   assigns Transition.latestHandlerToState, Transition.latestHandlerIsEnter, Transition.latestHandlerIsFinal, Machine.panicCaught, Machine.queue, Machine.queueLen, Machine.queueTicksPending, Machine.logEntries, ghost.faults
 //@   ensures res: r == Executed || r == Canceled
 //@   ensures faults: (isFinal && r == Canceled) ? ghost.faults == old(ghost.faults) + 1 : ghost.faults == old(ghost.faults)
+//@   ensures queue: old(QueueInv(t.Machine)) ==> QueueInv(t.Machine)
 
 // Negotiation emitters: each runs the handlers of one phase; a Canceled result
 // stops the transition unless the vetoed state is an Auto state of an auto
@@ -632,6 +635,7 @@ package machine
 //@   assigns Transition.latestHandlerToState, Transition.latestHandlerIsEnter, Transition.latestHandlerIsFinal, Transition.TargetIndexes, Transition.cacheTargetStates, Machine.panicCaught, Machine.queue, Machine.queueLen, Machine.queueTicksPending, Machine.logEntries
 //@   ensures target: old(TargetOK(t)) ==> TargetOK(t)
 //@   ensures shrink: forall x string :: mem(*t.cacheTargetStates, x) ==> mem(old(*t.cacheTargetStates), x)
+//@   ensures queue: old(QueueInv(t.Machine)) ==> QueueInv(t.Machine)
 //@   ensures res: r == Executed || r == Canceled
 //@ func (t *Transition) emitEnterEvents() (r Result)
 //@   trusted negotiation phase: result range, frame and phase only
@@ -640,6 +644,7 @@ package machine
 //@   assigns Transition.latestHandlerToState, Transition.latestHandlerIsEnter, Transition.latestHandlerIsFinal, Transition.TargetIndexes, Transition.cacheTargetStates, Machine.panicCaught, Machine.queue, Machine.queueLen, Machine.queueTicksPending, Machine.logEntries
 //@   ensures target: old(TargetOK(t)) ==> TargetOK(t)
 //@   ensures shrink: forall x string :: mem(*t.cacheTargetStates, x) ==> mem(old(*t.cacheTargetStates), x)
+//@   ensures queue: old(QueueInv(t.Machine)) ==> QueueInv(t.Machine)
 //@   ensures res: r == Executed || r == Canceled
 //@ func (t *Transition) emitSelfEvents() (r Result)
 //@   trusted negotiation phase: result range, frame and phase only
@@ -648,6 +653,7 @@ package machine
 //@   assigns Transition.latestHandlerToState, Transition.latestHandlerIsEnter, Transition.latestHandlerIsFinal, Transition.TargetIndexes, Transition.cacheTargetStates, Machine.panicCaught, Machine.queue, Machine.queueLen, Machine.queueTicksPending, Machine.logEntries
 //@   ensures target: old(TargetOK(t)) ==> TargetOK(t)
 //@   ensures shrink: forall x string :: mem(*t.cacheTargetStates, x) ==> mem(old(*t.cacheTargetStates), x)
+//@   ensures queue: old(QueueInv(t.Machine)) ==> QueueInv(t.Machine)
 //@   ensures res: r == Executed || r == Canceled
 //@ func (t *Transition) emitStateStateEvents() (r Result)
 //@   trusted negotiation phase: result range, frame and phase only
@@ -656,6 +662,7 @@ package machine
 //@   assigns Transition.latestHandlerToState, Transition.latestHandlerIsEnter, Transition.latestHandlerIsFinal, Transition.TargetIndexes, Transition.cacheTargetStates, Machine.panicCaught, Machine.queue, Machine.queueLen, Machine.queueTicksPending, Machine.logEntries
 //@   ensures target: old(TargetOK(t)) ==> TargetOK(t)
 //@   ensures shrink: forall x string :: mem(*t.cacheTargetStates, x) ==> mem(old(*t.cacheTargetStates), x)
+//@   ensures queue: old(QueueInv(t.Machine)) ==> QueueInv(t.Machine)
 //@   ensures res: r == Executed || r == Canceled
 
 // Final handlers run only after the target has been applied, and see the real
@@ -669,7 +676,8 @@ package machine
 //@   assigns Transition.latestHandlerToState, Transition.latestHandlerIsEnter, Transition.latestHandlerIsFinal, Machine.panicCaught, Machine.queue, Machine.queueLen, Machine.queueTicksPending, Machine.logEntries, ghost.faults
 //@   ensures res: r == Executed || r == Canceled
 //@   ensures faults: (r == Canceled) ? ghost.faults > old(ghost.faults) : ghost.faults == old(ghost.faults)
-//@   loop 1 invariant faults: ghost.faults == old(ghost.faults)
+//@   ensures queue: old(QueueInv(t.Machine)) ==> QueueInv(t.Machine)
+//@   loop 1 invariant faults: ghost.faults == old(ghost.faults) && (old(QueueInv(t.Machine)) ==> QueueInv(t.Machine))
 
 // TimeAfterOK: the transition's TimeAfter is the machine's time.
 //@ pred TimeAfterOK(t *Transition) := len(t.TimeAfter) == len(t.Machine.stateNames) && (forall i int :: 0 <= i && i < len(t.TimeAfter) ==> t.TimeAfter[i] == t.Machine.clock[t.Machine.stateNames[i]])
@@ -702,6 +710,10 @@ package machine
 //@   requires timeafter: transition != nil && transition.Machine != nil && (transition.Machine.disposed || ghost.faults > 0 || TimeAfterOK(transition))
 //@   ghostset tEnd := ghost.tEnd + 1
 
+// machOf: the machine a resolver works for (uninterpreted; the executor assumes
+// machOf(m.resolver) == m).
+//@ ufn machOf(rr RelationsResolver) *Machine
+
 // Interface contracts of the resolver (the default implementation is verified
 // against the same clauses above).
 //@ func (rr RelationsResolver) TargetStates(t *Transition, calledStates, index S) (ret S)
@@ -712,6 +724,7 @@ package machine
 //@   trusted interface contract; DefaultRelationsResolver.NewAutoMutation is verified against these clauses
 //@   ensures none: (mut == nil) <==> (len(names) == 0)
 //@   ensures kind: mut != nil ==> fresh(mut) && mut.IsAuto && mut.Type == MutationAdd && !mut.IsCheck && mut.QueueTick == 0
+//@   ensures called: mut != nil ==> (forall i int :: 0 <= i && i < len(mut.Called) ==> 0 <= mut.Called[i] && mut.Called[i] < len(machOf(rr).stateNames))
 
 //@ func (sm *Subscriptions) ProcessStateCtx(activated, deactivated S) (r []context.CancelFunc)
 //@   trusted specified with C06; here only its frame matters (subscription indexes)
@@ -741,6 +754,7 @@ package machine
 //@   props C01 C03 C05 C07 C14
 //@   abstracts the onChange callback and tracer callbacks are opaque (assumed not to assign machine state)
 //@   requires tx:    TxInv(t) && TargetOK(t) && t.cacheStatesBefore != nil && t.Machine.t == t && t.Machine.resolver != nil && t.Machine.subs != nil
+//@   requires owner: t.Machine.queueProcessing && QueueInv(t.Machine) && machOf(t.Machine.resolver) == t.Machine && unlocked(t.Machine.queueMx)
 //@   requires locks: unlocked(t.Machine.activeStatesMx) && unlocked(t.Machine.schemaMx) && unlocked(t.Machine.tracersMx) && unlocked(t.Machine.logEntriesLock)
 //@   requires inv:   ClockInv(t.Machine) && !isnil(t.Machine.clock) && SchemaInv(t.Machine)
 //@   requires room:  forall s string :: t.Machine.clock[s] <= MaxU64 - 4
@@ -766,8 +780,10 @@ package machine
 //@   trusted time-based (LastHandlerDeadline vs. the wall clock); treated as a pure function sampled once per call
 //@   pure
 //@ func (m *Machine) processQueue() (r Result)
-//@   trusted specified with C04: runs queued transitions
-//@   assigns *
+//@   trusted specified with C04: runs the queued transitions unless the queue is already being processed (then the call only reports Queued: no nesting)
+//@   assigns m.queueMx, m.logEntries
+//@   assigns * unless m.queueProcessing
+//@   ensures nested: old(m.queueProcessing) ==> (r == Queued || r == Canceled) && m.queueMx == old(m.queueMx)
 //@ func (m *Machine) breakpoint(added S, removed S)
 //@   trusted debugging aid
 
@@ -867,10 +883,14 @@ package machine
 //@   requires locks: unlocked(m.schemaMx) && unlocked(m.queueMx) && unlocked(m.tracersMx)
 //@   requires inv:   QueueInv(m)
 //@   requires tracers: forall i int :: 0 <= i && i < len(m.tracers) ==> m.tracers[i] != nil
-//@   assigns  *
+//@   assigns  m.queue, m.queueLen, m.queueToken, mut.QueueLen, mut.QueueToken, mut.QueueTickNow, mut.cacheCalled, m.queueMx, m.schemaMx, m.tracersMx, m.logEntries
+//@   assigns  * unless m.queueProcessing
 //@   ghostset prepended := ghost.prepended + (m.disposing ? 0 : 1)
 //@   ensures  disposing: old(m.disposing) ==> r == Canceled && unchanged(m.queue)
-//@   loop 1 invariant idx: 0 <= i
+//@   ensures  front:     !old(m.disposing) && old(m.queueProcessing) ==> len(m.queue) == old(len(m.queue)) + 1 && m.queue[0] == mut && (forall i int :: 0 <= i && i < old(len(m.queue)) ==> m.queue[i + 1] == old(m.queue)[i])
+//@   ensures  nested:    old(m.queueProcessing) ==> r == Queued || r == Canceled
+//@   ensures  locks:     old(m.queueProcessing) ==> unlocked(m.schemaMx) && unlocked(m.queueMx) && unlocked(m.tracersMx)
+//@   loop 1 invariant idx: 0 <= i && unlocked(m.schemaMx) && unlocked(m.queueMx)
 
 // ---- C06 / C13 / C04: subscriptions ----
 
